@@ -309,7 +309,14 @@ class Interp(object):
         V = Poly.atom(var)
         dep_atoms = [a for a in poly.atoms() if _depends(self.flow, a, var)]
         if not dep_atoms:
-            cons = self._kill(cons, var)
+            # candidate invariants about the new value, stated over what is
+            # assigned: tested (with the case splits of the composites that
+            # are about to be forgotten) before the old value is dropped
+            pool = [Con(c.p.subst({var: poly}), c.strict, c.why)
+                    for c in self.candidates if var in c.p.atoms()]
+            pool = [c for c in pool if not any(
+                _depends(self.flow, a, var) for a in c.p.atoms())]
+            cons = self._kill(cons, var, pool)
             return cons + [le(V, poly, "%s = ..." % var),
                            le(poly, V, "%s = ..." % var)]
         # invertible linear update  var = a*var + rest
